@@ -88,6 +88,8 @@ def _push_typestate(ctx, R, roles, T):
     want_inner = ("CONCAT", ("STR", ("p", "device_path")), ("c", ","), ("STR", ("call", "builtins.int", (("p", "st_mode"),), ())))
     ok = st is not None and st[0] == "call" and st[1] == ".encode" and st[2][0] == want_inner and (len(st[2]) == 1 or (st[2][1][0] == "c" and st[2][1][1] in UTF8)) and "size" not in sb
     R.check(ok, "PUSH-events", q + "|SEND-payload", "SEND carries '<device_path>,<int(st_mode)>' utf-8 encoded", "SEND carries %s; expected '{},{}'.format(device_path, int(st_mode)).encode('utf-8')" % (show(st) if st else "nothing"), f.loc(sn.ast))
+    R.check(g.dominates([sn], g.exit, exc=False) and g.dominates([en], g.exit, exc=False), "PUSH-events", q + "|always-transfers", "_push returns normally only after SEND .. DONE were sent",
+            "_push can return normally without having sent SEND and DONE (an early return): the file is silently not transferred", f.loc())
     R.check(not g.in_cycle(sn) and g.dominates([sn], dn) and g.dominates([sn], en), "PUSH-events", q + "|SEND-first", "SEND is sent once, before any DATA and DONE", "SEND is not sent exactly once before DATA/DONE", f.loc(sn.ast))
     # chunk loop
     if not dn.loops:
@@ -461,6 +463,19 @@ def _push_public(ctx, R, roles, T):
         return
     it = iters[0]
     pn, pc = pushes[0]
+    from ..util import always_reached
+    R.check(always_reached(g, pn, it), "PUSH", q + "|always-transfers", "push returns normally only after every file of the list was handed to _push",
+            "push can return normally (or go on to the next file) without calling _push: a file is silently not sent", f.loc(pn.ast))
+    # "push returns normally only after the device's sync OKAY": a failure of the open / the transfer / the close is not swallowed by a handler
+    from .c12 import handler_completes
+    for (xn, what) in ((pn, "_push"), (opens[0][0], "_open")):
+        for (t, region) in xn.trys:
+            if region != "body":
+                continue
+            for h in t.handlers:
+                hn = [x for x in g.nodes_of(h) if x.kind == "except"]
+                R.check(not (hn and handler_completes(g, hn[0])), "PUSH", "%s|no-swallow|%s|%s" % (q, what, norm_stmt(h.type) if h.type is not None else "bare"), "a failure of %s is not swallowed" % what,
+                        "a handler (`except %s`) around %s completes normally: a transfer that failed half-way is reported as done (push goes on / returns without the device's OKAY)" % (norm_stmt(h.type) if h.type is not None else "", what), f.loc(h))
     R.check(pn.loops == (it,) and closes[0][0].loops == (it,) and opens[0][0].loops == (it,), "PUSH", q + "|per-file", "open, transfer and close happen once per file", "open/_push/_clse are not all exactly once per loop iteration", f.loc(it.ast))
     itt = T.term(f, it, it.ast.iter)
     gf = ctx.pkg.func("hidden_helpers.get_files_to_push")
